@@ -328,14 +328,14 @@ def mon_C06(run, cfg, seed):
                 if sorted(step_ticks) != sorted(m.market_id for m in markets):
                     out.append(viol("C06", "C06/not-every-market-advanced-once", "every market advances exactly once per step",
                                     {"ticks": step_ticks}, cfg, seed))
-                seen_idx = False
-                for m in step_ticks:
-                    if is_index[m]:
-                        seen_idx = True
-                    elif seen_idx:
-                        out.append(viol("C06", "C06/index-market-advanced-before-component",
-                                        "index markets advance after their components", {"ticks": step_ticks}, cfg, seed))
-                        break
+                pos = {m: i for i, m in enumerate(step_ticks)}
+                for im in markets:
+                    if is_index[im.market_id]:
+                        for c in im.get_components():
+                            if pos.get(c.market_id, -1) > pos.get(im.market_id, 10 ** 9):
+                                out.append(viol("C06", "C06/index-market-advanced-before-component",
+                                                "index markets advance after their components",
+                                                {"ticks": step_ticks, "index": im.market_id, "component": c.market_id}, cfg, seed))
                 t_after = ev[2]
                 expected_t = t_after
     if run.error is None:
